@@ -22,6 +22,7 @@ vmod!(ddb, "ddb.rs");
 vmod!(schedsc, "schedsc.rs");
 vmod!(plcdr, "plcdr.rs");
 vmod!(pure, "pure.rs");
+vmod!(chanstress, "chanstress.rs");
 
 // drivers that need the DDS Security plugins (only in the `security` build: vcheck-sec)
 #[cfg(feature = "security")]
